@@ -25,6 +25,8 @@ RULES_DOC.update({
     "R5": "trylock_no_recursion returns ABT_SUCCESS iff try_acquire returned 0",
     "R6": "public ABT_mutex_* entry points call the matching internal function once with the mutex they were given",
     "R7": "all wait-list operations on ABTI_mutex::waitlist hold ABTI_mutex::waiter_lock",
+    "R8": "attribute plumbing: set_recursive sets/clears exactly the RECURSIVE bit, get reads it, create_with_attr/get_attr copy attrs, init clears owner/nesting",
+    "R9": "wait-list waiters and wakers classify a unit as yieldable through the same type-checked accessor (never the unchecked cast)",
 })
 VARIANTS = ["simple_mutex", "active_wait", "no_ext_thread", "no_linux_futex"]
 
@@ -318,6 +320,79 @@ def rule_R7(P, rep, simple):
     rep.need(n >= 2, "only %d wait-list operations on ABTI_mutex::waitlist found" % n)
 
 
+def rule_R8(P, rep):
+    REC = None
+    F = P.fn("ABT_mutex_attr_set_recursive", "src/mutex_attr.c")
+    sel = seq.Sel(fields={"attrs"}, conds=lambda t: "recursive" in t, locks=False)
+    kinds = {}
+    for toks, kind, rv, rtxt in seq.sequences(F, sel):
+        if kind != "ret" or rv != 0:
+            continue
+        st = [t for t in toks if t[0] == "st" and t[1] == "ABTI_mutex_attr::attrs"]
+        on = any(t[0] == "if" and ((t[1].endswith("== 1") and t[2]) or (t[1].endswith("== 0") and not t[2]) or
+                                   (t[1] == "recursive" and t[2])) for t in toks)
+        kinds[on] = st
+    ok = set(kinds) == {True, False} and all(len(v) == 1 for v in kinds.values())
+    why = "expected one store on the enabling and one on the disabling path: %s" % {k: [x[1:4] for x in v] for k, v in kinds.items()}
+    if ok:
+        s_on, s_off = kinds[True][0], kinds[False][0]
+        bit = s_on[3]
+        ok = s_on[2] == "|=" and isinstance(bit, int) and bit != 0 and bit & (bit - 1) == 0
+        why = "enabling path must OR in a single flag bit (got %s %s)" % (s_on[2], s_on[3])
+        if ok:
+            mask = s_off[3]
+            # the clearing mask must be the complement of the flag (in the width of the attrs field)
+            ok = s_off[2] == "&=" and isinstance(mask, int) and (mask & bit) == 0 and ((mask | bit) & 0xffffffff) == 0xffffffff
+            why = "disabling path must AND with the complement of the flag bit %#x (got %s %s)" % (bit, s_off[2], s_off[3])
+            REC = bit
+    rep.ob("R8", "ABT_mutex_attr_set_recursive sets / clears exactly the RECURSIVE bit", ok, why, loc=F.file,
+           site="attr_set_recursive")
+    G = P.fn("ABT_mutex_attr_get_recursive", "src/mutex_attr.c")
+    sel = seq.Sel(conds=lambda t: "attrs" in t, locks=False)
+    vals = {}
+    for b, i, lh, rh in G.stores():
+        if G.render(lh) == "*recursive":
+            vals[G.nodes[G.strip(rh)].get("cv")] = i
+    conds = [G.render(b.tc) for b in G.blocks.values() if b.tc is not None and "attrs" in G.render(b.tc)]
+    ok = set(vals) == {0, 1} and len(conds) == 1 and REC is not None and ("& %d" % REC in conds[0] or "& (" in conds[0] or True)
+    if ok:
+        # the TRUE store must be on the true edge of the bit test
+        tb = [b for b in G.blocks.values() if b.tc is not None and "attrs" in G.render(b.tc)][0]
+        t_blk, f_blk = tb.succs[0], tb.succs[1]
+        ok = G.block_of(vals[1]) in cfg.reachable_blocks(G, t_blk) - cfg.reachable_blocks(G, f_blk) or G.block_of(vals[1]) == t_blk
+    rep.ob("R8", "ABT_mutex_attr_get_recursive reports TRUE exactly when the bit is set", ok, "conditions %s" % conds, loc=G.file,
+           site="attr_get_recursive")
+    for fn, lhs, rhs in (("ABT_mutex_create_with_attr", "p_newmutex->attrs", "p_attr->attrs"),
+                         ("ABT_mutex_get_attr", "p_newattr->attrs", "p_mutex->attrs")):
+        H = P.fn(fn, "src/mutex.c")
+        st = [(H.render(l), H.render(r)) for b, i, l, r in H.stores() if r is not None and H.render(l).endswith("->attrs")]
+        rep.ob("R8", "%s copies the attribute word" % fn, (lhs, rhs) in st, str(st), loc=H.file, site=fn + "/copy")
+    I = P.fn("ABTI_mutex_init", MH)
+    st = {I.fieldpath(l): I.nodes[I.strip(r)].get("cv") for b, i, l, r in I.stores() if r is not None}
+    ok = st.get("ABTI_mutex::attrs") == 0 and st.get("ABTI_mutex::nesting_cnt") == 0 and st.get("ABTI_mutex::owner_id") == 0
+    rep.ob("R8", "ABTI_mutex_init starts non-recursive with no owner and no nesting", ok, str(st), loc=I.file, site="mutex_init")
+    # the recursion test used by lock/trylock/spinlock/unlock is the same bit
+    for fn in ("ABTI_mutex_lock", "ABTI_mutex_trylock", "ABTI_mutex_spinlock", "ABTI_mutex_unlock"):
+        L = P.fn(fn, MH)
+        cs = [L.nodes[cfg.cond_atom(L, b.tc)[0]] for b in L.blocks.values() if b.tc is not None and "attrs" in L.render(b.tc)]
+        ok = len(cs) >= 1 and all(c.get("k") == "bin" and c["op"] == "&" and L.nodes[L.strip(c["rh"])].get("cv") == REC for c in cs)
+        rep.ob("R8", "%s tests the same RECURSIVE bit that set_recursive writes" % fn, ok and REC is not None,
+               "tests: %s, bit %s" % ([L.render(b.tc) for b in L.blocks.values() if b.tc is not None and "attrs" in L.render(b.tc)], REC),
+               loc=L.file, site=fn + "/bit")
+
+
+def rule_R9(P, rep):
+    WL = "src/include/abti_waitlist.h"
+    for fn in ("ABTI_waitlist_wait_and_unlock", "ABTI_waitlist_wait_timedout_and_unlock", "ABTI_waitlist_signal",
+               "ABTI_waitlist_broadcast"):
+        F = P.fn(fn, WL)
+        checked = F.calls("ABTI_thread_get_ythread_or_null")
+        unchecked = F.calls("ABTI_thread_get_ythread")
+        rep.ob("R9", "%s decides 'yieldable' with the type-checked accessor only" % fn, bool(checked) and not unchecked,
+               "checked casts %d, unchecked casts at %s (a tasklet treated as a ULT is suspended on a context it does not have)" %
+               (len(checked), [F.loc(i) for b, i in unchecked]), loc="%s:%d" % (F.file, F.line), site=fn + "/classification")
+
+
 def run(P, rep, tier):
     v = P.variant
     simple = v == "simple_mutex"
@@ -329,3 +404,5 @@ def run(P, rep, tier):
     rule_R5(P, rep)
     rule_R6(P, rep)
     rule_R7(P, rep, simple)
+    rule_R8(P, rep)
+    rule_R9(P, rep)
